@@ -336,6 +336,8 @@ func special32(r *rand.Rand) uint32 {
 	return r.Uint32()
 }
 
+var prevSet56 replication.Mysql56GTIDSet
+
 func gtidTexts(g replication.GTID, flavor string) M {
 	t1 := g.String()
 	m := M{"text": B(t1), "flavor": g.Flavor()}
@@ -360,6 +362,9 @@ func gtidTexts(g replication.GTID, flavor string) M {
 
 func modeC19(e *Env) {
 	f := realFormat(codecCfg)
+	crcCfg := codecCfg
+	crcCfg.Checksum = true
+	fcrc := realFormat(crcCfg)
 	n := e.N(200, 6000)
 	for i := 0; i < n; i++ {
 		// (1) MySQL 5.6 GTID
@@ -451,6 +456,11 @@ func modeC19(e *Env) {
 			o["parseErr"], o["text2"], o["eq"] = false, B(p.String()), p.Equal(set) && set.Equal(p)
 		}
 		blk := set.SIDBlock()
+		// (the block of another set is produced before this one is looked at: a block that was handed out stays what it was)
+		if prevSet56 != nil {
+			prevSet56.SIDBlock()
+		}
+		prevSet56 = set
 		o["block"] = B(blk)
 		s2, err := replication.NewMysql56GTIDSetFromSIDBlock(blk)
 		if err != nil {
@@ -471,9 +481,15 @@ func modeC19(e *Env) {
 			}
 			ivs = append(ivs, x)
 		}
-		raw := mkEvent(9, tPreviousGtids, 1, 700, 0, sidBlock(sids, ivs), false)
-		pe := replication.NewMysql56BinlogEvent(raw)
-		ps, perr := pe.PreviousGTIDs(f)
+		raw := mkEvent(9, tPreviousGtids, 1, 700, 0, sidBlock(sids, ivs), i%2 == 1)
+		var pe replication.BinlogEvent = replication.NewMysql56BinlogEvent(raw)
+		pf := f
+		if i%2 == 1 {
+			// as read from a stream with CRC32 checksums: the checksum is stripped first, the format still says CRC32
+			pf = fcrc
+			pe, _, _ = pe.StripChecksum(fcrc)
+		}
+		ps, perr := pe.PreviousGTIDs(pf)
 		if perr != nil || ps == nil {
 			o["prevErr"], o["text4"] = true, B(nil)
 		} else {
